@@ -81,5 +81,21 @@ static void blk_crls(void) {
 		verify_matrix("crl", crl, cl, &CK[1], sid); if (mask == 5 || mask == 0) bitflips("crl", crl, cl, &CK[1], sid, 1);
 		vh_sample("{\"block\":\"crls\",\"listed_mask\":%d,\"signer_id\":%d,\"crllen\":%zu}", mask, sid, cl); }
 }
-static void body(void) { blk_certs(); blk_reqs(); blk_crls(); }
+/* extension values of every size around the DER length-form boundaries (127/128, 255/256): issued certificate must carry a well-formed
+   extension block in which every extension supplied is found again, with its criticality and exactly its value */
+static void blk_ext_sizes(void) {
+	if (!vh_block_begin("extension-sizes")) return; static char dns[400]; for (int i = 0; i < 400; i++) dns[i] = (char)('a' + i % 26);
+	for (int n = 1; n <= 300; n++) for (int which = 0; which < 2; which++) { if (!vh_next()) continue; if (!(n <= 8 || (n >= 100 && n <= 140) || (n >= 235 && n <= 270) || n == 300)) continue;
+		uint8_t gns[512]; size_t gl = 0; if (x509_general_names_add_general_name(gns, &gl, sizeof gns, X509_gn_dns_name, (const uint8_t *)dns, (size_t)n) != 1) { vh_obs("general name of %d bytes refused", n); continue; }
+		uint8_t exts[1024]; size_t el = 0; int r = x509_exts_add_key_usage(exts, &el, sizeof exts, X509_critical, X509_KU_DIGITAL_SIGNATURE); r &= which ? x509_exts_add_issuer_alt_name(exts, &el, sizeof exts, X509_non_critical, gns, gl) : x509_exts_add_subject_alt_name(exts, &el, sizeof exts, X509_non_critical, gns, gl); r &= x509_exts_add_basic_constraints(exts, &el, sizeof exts, X509_critical, 0, -1); vh_eval(vh_mix(40000 + n * 2 + which)); char key[160];
+		if (r != 1) { snprintf(key, sizeof key, "C15:ext-sizes:%s:refused", which ? "issuerAltName" : "subjectAltName"); vh_viol(key, "\"dns_len\":%d", n); continue; }
+		if (!der_tree_ok(exts, el, 0)) { snprintf(key, sizeof key, "C15:ext-sizes:%s:extension-block-malformed", which ? "issuerAltName" : "subjectAltName"); vh_viol(key, "\"dns_len\":%d,\"general_names_len\":%zu", n, gl); }
+		static uint8_t cert[2048]; uint8_t *p = cert; size_t cl = 0; uint8_t serial[3] = { 1, (uint8_t)n, (uint8_t)which }; venv_reset(4000 + n); r = x509_cert_sign_to_der(X509_version_v3, serial, 3, OID_sm2sign_with_sm3, NAME_I, NIL, VENV_NOW - 1000, VENV_NOW + 100000, NAME_S, NSL, &CK[0], NULL, 0, NULL, 0, exts, el, &CK[1], SM2_DEFAULT_ID, 16, &p, &cl);
+		if (r != 1) { snprintf(key, sizeof key, "C15:ext-sizes:%s:certificate-not-issued", which ? "issuerAltName" : "subjectAltName"); vh_viol(key, "\"dns_len\":%d", n); continue; }
+		const uint8_t *ee; size_t eel; if (x509_cert_get_exts(cert, cl, &ee, &eel) != 1 || eel != el || memcmp(ee, exts, el)) { vh_viol("C15:ext-sizes:extension-block-not-returned-as-supplied", "\"dns_len\":%d", n); continue; }
+		int oids[3] = { OID_ce_key_usage, which ? OID_ce_issuer_alt_name : OID_ce_subject_alt_name, OID_ce_basic_constraints }; for (int i = 0; i < 3; i++) { int crit = -9; const uint8_t *val; size_t vl; int g = x509_exts_get_ext_by_oid(ee, eel, oids[i], &crit, &val, &vl); vh_eval(vh_mix(50000 + n * 8 + which * 4 + i));
+			if (g != 1) { snprintf(key, sizeof key, "C15:ext-sizes:extension-not-found-again:%s", i == 0 ? "keyUsage" : i == 1 ? (which ? "issuerAltName" : "subjectAltName") : "basicConstraints"); vh_viol(key, "\"dns_len\":%d,\"ret\":%d", n, g); continue; }
+			if (i == 1) { uint8_t want[600], *wp = want; size_t wl = 0; x509_general_names_to_der(gns, gl, &wp, &wl); if (vl != wl || memcmp(val, want, wl) || (crit != 0 && crit != -1)) { snprintf(key, sizeof key, "C15:ext-sizes:%s:value-differs", which ? "issuerAltName" : "subjectAltName"); vh_viol(key, "\"dns_len\":%d,\"vlen\":%zu,\"want\":%zu", n, vl, wl); } } } }
+}
+static void body(void) { blk_certs(); blk_reqs(); blk_crls(); blk_ext_sizes(); }
 int main(int argc, char **argv) { vh_init(argc, argv); if (!freopen("/dev/null", "w", stderr)) {} creds_init(); make_name(NAME_I, &NIL, "Issuer"); x509_name_set(NAME_S, &NSL, sizeof NAME_S, "CN", "Beijing", "Haidian", "PKU", "CS", "Subject"); vh_guarded("C15", body, 120); return vh_finish(); }
